@@ -83,12 +83,17 @@ func TestVerifC06Exporter(t *testing.T) {
 			rnd.Shuffle(len(opts), func(i, j int) { opts[i], opts[j] = opts[j], opts[i] })
 			var toks []string
 			var os []Option
+			decls := "" // every explicit declaration, in option order (model exporterCapH: applied in order, the helper's own comes last)
 			for _, o := range opts {
 				toks = append(toks, o.tok)
 				os = append(os, o.o)
 				if strings.HasPrefix(o.tok, "cap") {
 					declared = o.tok[3:]
+					decls += o.tok[3:]
 				}
+			}
+			if decls == "" {
+				decls = "-"
 			}
 			if len(toks) == 0 {
 				toks = []string{"-"}
@@ -131,6 +136,8 @@ func TestVerifC06Exporter(t *testing.T) {
 				out.Linef("obs error")
 				continue
 			}
+			out.Linef("obs cap %d", vB(caps.MutatesData))
+			out.Linef("op exph sig=%s decls=%s batching=%d", sig, decls, vB(batching))
 			out.Linef("obs cap %d", vB(caps.MutatesData))
 			if batching && !caps.MutatesData {
 				out.Linef("viol sig=C06/exporter/batching-exporter-not-advertised-mutating signal=%s opts=%s", sig, strings.Join(toks, ","))
